@@ -744,9 +744,16 @@ FN('read', props=['C07', 'C08', 'C12', 'C01'], ret='r',
             (rd is NoBody || (rd is LengthDelimited && rd->LengthDelimited_0 == 0) || (rd is Chunked && rd->Chunked_0 is Ended)) ==> r == Ok::<(usize, usize), Error>((0usize, 0usize)) && final(self).state.reader == old(self).state.reader })'''),
        ('C08.length_delimited', 'old(self).state.reader->Some_0 is LengthDelimited && old(self).state.reader->Some_0->LengthDelimited_0 > 0 ==> BodyReader::post_read_limit(old(self).state.reader->Some_0, final(self).state.reader->Some_0, input@, old(output)@, final(output)@, r)'),
        ('C08.close_delimited', 'old(self).state.reader->Some_0 is CloseDelimited ==> BodyReader::post_read_unlimit(old(self).state.reader->Some_0, final(self).state.reader->Some_0, input@, old(output)@, final(output)@, r)'),
-       ('C07.chunked', 'old(self).state.reader->Some_0 is Chunked ==> BodyReader::post_read_chunked(old(self).state.reader->Some_0, final(self).state.reader->Some_0, input@, final(output)@, old(self).state.stop_on_chunk_boundary, r)'),
+       ('C07.chunked', 'old(self).state.reader->Some_0 is Chunked ==> BodyReader::post_read_chunked(old(self).state.reader->Some_0, final(self).state.reader->Some_0, input@, old(output).len() as int, final(output)@, old(self).state.stop_on_chunk_boundary, r)'),
    ],
-   before=[('if rbm.is_ended() {', 'proof { crate::body::lemma_subseq_refl(input@.subrange(0, 0)); assert(output@.subrange(0, 0) =~= input@.subrange(0, 0)); }')],
+   before=[('if rbm.is_ended() {', '''proof {
+            crate::chunk::lemma_subseq_refl(input@.subrange(0, 0)); assert(output@.subrange(0, 0) =~= input@.subrange(0, 0));
+            if *rbm is Chunked && rbm->Chunked_0 is Ended {
+                crate::body::lemma_read_basic(rbm->Chunked_0, input@, output.len() as int, old(self).state.stop_on_chunk_boundary);
+                let p = crate::body::spec_read(rbm->Chunked_0, input@, output.len() as int, old(self).state.stop_on_chunk_boundary)->Some_0;
+                assert(output@.subrange(0, p.out.len() as int) =~= p.out);
+            }
+        }''')],
    )
 FN('stop_on_chunk_boundary', props=['C07'],
    ensures=[('aux.stop_on_chunk_boundary', 'final(self).state.stop_on_chunk_boundary == enabled && final(self).request == old(self).request && final(self).analyzed == old(self).analyzed && final(self).state.phase == old(self).state.phase && final(self).state.writer == old(self).state.writer && final(self).state.reader == old(self).state.reader && final(self).state.skip_method_body_check == old(self).state.skip_method_body_check')])
